@@ -68,6 +68,10 @@ def main(argv: list) -> int:
     if cmd == 'setup':
         from sim import setup
         return setup.main()
+    if cmd == 'mkcorpus':
+        core.install_determinism_seams()
+        from tools import mkcorpus
+        return mkcorpus.main()
     if cmd == 'selftest':
         from sim import setup
         return setup.selftest()
